@@ -276,9 +276,18 @@ def check(ctx: Ctx) -> None:
              (PAR, "Parallel.to_sympy", "element", "sym")]
     cont_q, elem_q, conn_q = f"{BASE}:Container", f"{BASE}:Element", f"{BASE}:Connection"
     dyn_sites = []
+    evaluator_interpreted = True
+    try:
+        from . import _c01_interp as I01
+        ev_problems, ev_n = I01.run_evaluator(ctx, model)
+    except AnalysisError as e:
+        evaluator_interpreted = False
+        ctx.note(f"_calculate_impedances not interpretable ({e}); decided from its shape instead")
     for mod, qual, var, kind in sites:
         if interpreted and kind == "num" and qual.endswith("._impedance"):
             continue  # the child stubs of the interpretation accept only the argument set of their own kind
+        if evaluator_interpreted and qual == "_calculate_impedances":
+            continue  # likewise (R1.4 below)
         fi0 = model.fi(mod, qual)
         if kind == "num" and qual.endswith("._impedance"):
             prov = child_provider(model, fi0)
@@ -392,143 +401,151 @@ def check(ctx: Ctx) -> None:
 
     # ---------------- R1.4 ---------------------------------------------------------
     ci = model.fi(BASE, "_calculate_impedances")
-    body = ci.node.body
-    ctx.instance("R1.4", "negative frequencies refused before any evaluation")
-    neg = [n for n in body if isinstance(n, ast.If) and "min(f) < 0" in norm(n.test) and always_exits(n.body)]
-    first_eval = min([c.lineno for c in calls_in(ci.node, into_functions=True) if dotted(c.func) in ("func", "_calculate_limit") or dotted(c.func).endswith("._impedance")] or [10 ** 9])
-    if neg and neg[0].lineno < first_eval:
-        ctx.ok()
+    if evaluator_interpreted:
+        ctx.instance("R1.4", f"_calculate_impedances interpreted on {ev_n} (object kind × frequency vector over 0/finite/tiny/inf/negative) cases: Z(f_j) at its own position, limits for 0 and inf, refusals")
+        if ev_problems:
+            ctx.violation("R1.4", "_calculate_impedances:semantics", BASE, ci.node, "; ".join(ev_problems[:2]))
+        else:
+            ctx.ok()
     else:
-        ctx.violation("R1.4", "_calculate_impedances:negative", BASE, ci.node, "negative frequencies are not refused before evaluation")
-    # index sets over the point classes {zero, finite, inf} (negative frequencies were refused above): a finite abstract
-    # interpretation of the statements that build index arrays, whatever numpy idiom they use
-    U = frozenset({"zero", "finite", "inf"})
+        ci = model.fi(BASE, "_calculate_impedances")
+        body = ci.node.body
+        ctx.instance("R1.4", "negative frequencies refused before any evaluation")
+        neg = [n for n in body if isinstance(n, ast.If) and "min(f) < 0" in norm(n.test) and always_exits(n.body)]
+        first_eval = min([c.lineno for c in calls_in(ci.node, into_functions=True) if dotted(c.func) in ("func", "_calculate_limit") or dotted(c.func).endswith("._impedance")] or [10 ** 9])
+        if neg and neg[0].lineno < first_eval:
+            ctx.ok()
+        else:
+            ctx.violation("R1.4", "_calculate_impedances:negative", BASE, ci.node, "negative frequencies are not refused before evaluation")
+        # index sets over the point classes {zero, finite, inf} (negative frequencies were refused above): a finite abstract
+        # interpretation of the statements that build index arrays, whatever numpy idiom they use
+        U = frozenset({"zero", "finite", "inf"})
 
-    class Tolerant(Exception):
-        pass
+        class Tolerant(Exception):
+            pass
 
-    def pset(e: ast.AST, env) -> Optional[frozenset]:
-        if isinstance(e, ast.Name):
-            return env.get(e.id)
-        if isinstance(e, ast.Compare) and len(e.ops) == 1 and norm(e.left) == "f" and isinstance(e.comparators[0], ast.Constant) and e.comparators[0].value == 0:
-            return {ast.Eq: frozenset({"zero"}), ast.NotEq: U - {"zero"}, ast.Gt: U - {"zero"}, ast.LtE: frozenset({"zero"}), ast.GtE: U, ast.Lt: frozenset()}.get(type(e.ops[0]))
-        if isinstance(e, ast.Call):
-            fn_ = dotted(e.func).split(".")[-1]
-            if fn_ in ("isinf", "isposinf") and e.args and norm(e.args[0]) == "f":
-                return frozenset({"inf"})
-            if fn_ == "isfinite" and e.args and norm(e.args[0]) == "f":
-                return U - {"inf"}
-            if fn_ in ("isclose", "allclose"):
-                raise Tolerant(norm(e))
-            if fn_ in ("logical_or", "logical_and") and len(e.args) == 2:
-                a_, b_ = pset(e.args[0], env), pset(e.args[1], env)
+        def pset(e: ast.AST, env) -> Optional[frozenset]:
+            if isinstance(e, ast.Name):
+                return env.get(e.id)
+            if isinstance(e, ast.Compare) and len(e.ops) == 1 and norm(e.left) == "f" and isinstance(e.comparators[0], ast.Constant) and e.comparators[0].value == 0:
+                return {ast.Eq: frozenset({"zero"}), ast.NotEq: U - {"zero"}, ast.Gt: U - {"zero"}, ast.LtE: frozenset({"zero"}), ast.GtE: U, ast.Lt: frozenset()}.get(type(e.ops[0]))
+            if isinstance(e, ast.Call):
+                fn_ = dotted(e.func).split(".")[-1]
+                if fn_ in ("isinf", "isposinf") and e.args and norm(e.args[0]) == "f":
+                    return frozenset({"inf"})
+                if fn_ == "isfinite" and e.args and norm(e.args[0]) == "f":
+                    return U - {"inf"}
+                if fn_ in ("isclose", "allclose"):
+                    raise Tolerant(norm(e))
+                if fn_ in ("logical_or", "logical_and") and len(e.args) == 2:
+                    a_, b_ = pset(e.args[0], env), pset(e.args[1], env)
+                    if a_ is None or b_ is None:
+                        return None
+                    return a_ | b_ if fn_ == "logical_or" else a_ & b_
+                if fn_ == "logical_not" and e.args:
+                    a_ = pset(e.args[0], env)
+                    return None if a_ is None else U - a_
+                # index-array constructors
+                if fn_ in ("unique", "sort", "array", "asarray") and e.args:
+                    return pset(e.args[0], env)
+                if fn_ == "concatenate" and e.args and isinstance(e.args[0], (ast.Tuple, ast.List)):
+                    parts = [pset(x, env) for x in e.args[0].elts]
+                    return None if any(x is None for x in parts) else frozenset().union(*parts)
+                if fn_ in ("delete", "setdiff1d") and len(e.args) >= 2:
+                    a_, b_ = pset(e.args[0], env), pset(e.args[1], env)
+                    return None if a_ is None or b_ is None else a_ - b_
+                if fn_ == "union1d" and len(e.args) == 2:
+                    a_, b_ = pset(e.args[0], env), pset(e.args[1], env)
+                    return None if a_ is None or b_ is None else a_ | b_
+                if fn_ == "intersect1d" and len(e.args) == 2:
+                    a_, b_ = pset(e.args[0], env), pset(e.args[1], env)
+                    return None if a_ is None or b_ is None else a_ & b_
+                if fn_ in ("flatnonzero",) and e.args:
+                    return pset(e.args[0], env)
+                if fn_ in ("arange",) and e.args and norm(e.args[0]) in ("f.size", "len(f)", "Z.size", "len(Z)", "f.shape[0]", "Z.shape[0]"):
+                    return U
+                return None
+            if isinstance(e, ast.Subscript) and norm(e.slice) == "0" and isinstance(e.value, ast.Call):
+                fn_ = dotted(e.value.func).split(".")[-1]
+                if fn_ in ("where", "nonzero") and len(e.value.args) == 1:
+                    return pset(e.value.args[0], env)
+                if fn_ in ("indices", "array_indices") and e.value.args and norm(e.value.args[0]) in ("Z.shape", "f.shape"):
+                    return U
+                return None
+            if isinstance(e, ast.BinOp) and isinstance(e.op, (ast.BitOr, ast.BitAnd)):
+                a_, b_ = pset(e.left, env), pset(e.right, env)
                 if a_ is None or b_ is None:
                     return None
-                return a_ | b_ if fn_ == "logical_or" else a_ & b_
-            if fn_ == "logical_not" and e.args:
-                a_ = pset(e.args[0], env)
+                return a_ | b_ if isinstance(e.op, ast.BitOr) else a_ & b_
+            if isinstance(e, ast.UnaryOp) and isinstance(e.op, ast.Invert):
+                a_ = pset(e.operand, env)
                 return None if a_ is None else U - a_
-            # index-array constructors
-            if fn_ in ("unique", "sort", "array", "asarray") and e.args:
-                return pset(e.args[0], env)
-            if fn_ == "concatenate" and e.args and isinstance(e.args[0], (ast.Tuple, ast.List)):
-                parts = [pset(x, env) for x in e.args[0].elts]
-                return None if any(x is None for x in parts) else frozenset().union(*parts)
-            if fn_ in ("delete", "setdiff1d") and len(e.args) >= 2:
-                a_, b_ = pset(e.args[0], env), pset(e.args[1], env)
-                return None if a_ is None or b_ is None else a_ - b_
-            if fn_ == "union1d" and len(e.args) == 2:
-                a_, b_ = pset(e.args[0], env), pset(e.args[1], env)
-                return None if a_ is None or b_ is None else a_ | b_
-            if fn_ == "intersect1d" and len(e.args) == 2:
-                a_, b_ = pset(e.args[0], env), pset(e.args[1], env)
-                return None if a_ is None or b_ is None else a_ & b_
-            if fn_ in ("flatnonzero",) and e.args:
-                return pset(e.args[0], env)
-            if fn_ in ("arange",) and e.args and norm(e.args[0]) in ("f.size", "len(f)", "Z.size", "len(Z)", "f.shape[0]", "Z.shape[0]"):
-                return U
+            if isinstance(e, ast.Compare) and len(e.ops) == 1 and isinstance(e.left, ast.Call) and dotted(e.left.func) in ("abs", "fabs"):
+                raise Tolerant(norm(e))
             return None
-        if isinstance(e, ast.Subscript) and norm(e.slice) == "0" and isinstance(e.value, ast.Call):
-            fn_ = dotted(e.value.func).split(".")[-1]
-            if fn_ in ("where", "nonzero") and len(e.value.args) == 1:
-                return pset(e.value.args[0], env)
-            if fn_ in ("indices", "array_indices") and e.value.args and norm(e.value.args[0]) in ("Z.shape", "f.shape"):
-                return U
-            return None
-        if isinstance(e, ast.BinOp) and isinstance(e.op, (ast.BitOr, ast.BitAnd)):
-            a_, b_ = pset(e.left, env), pset(e.right, env)
-            if a_ is None or b_ is None:
-                return None
-            return a_ | b_ if isinstance(e.op, ast.BitOr) else a_ & b_
-        if isinstance(e, ast.UnaryOp) and isinstance(e.op, ast.Invert):
-            a_ = pset(e.operand, env)
-            return None if a_ is None else U - a_
-        if isinstance(e, ast.Compare) and len(e.ops) == 1 and isinstance(e.left, ast.Call) and dotted(e.left.func) in ("abs", "fabs"):
-            raise Tolerant(norm(e))
-        return None
 
-    ienv: Dict[str, frozenset] = {}
-    stores = []  # (statement, index expr set, value)
-    tolerant = None
+        ienv: Dict[str, frozenset] = {}
+        stores = []  # (statement, index expr set, value)
+        tolerant = None
 
-    def scan(stmts):
-        nonlocal tolerant
-        for st_ in stmts:
-            if isinstance(st_, (ast.Assign, ast.AnnAssign)) and st_.value is not None:
-                tg_ = st_.targets[0] if isinstance(st_, ast.Assign) else st_.target
-                if isinstance(tg_, ast.Name):
-                    try:
-                        v_ = pset(st_.value, ienv)
-                    except Tolerant as t_:
-                        tolerant = (st_, str(t_))
-                        v_ = None
-                    if v_ is not None:
-                        ienv[tg_.id] = v_
-                    else:
-                        ienv.pop(tg_.id, None)
-                elif isinstance(tg_, ast.Subscript) and norm(tg_.value) == "Z":
-                    try:
-                        stores.append((st_, pset(tg_.slice, ienv), st_.value, norm(tg_.slice)))
-                    except Tolerant as t_:
-                        tolerant = (st_, str(t_))
-            elif isinstance(st_, ast.If) and (".size > 0" in norm(st_.test) or norm(st_.test).startswith("len(")):
-                scan(st_.body)  # acting on an empty index set is the identity: the guard does not change the sets
-    scan(body)
-    ctx.instance("R1.4", "limit path takes exactly the points with f == 0 or f infinite; the finite path takes exactly the others")
-    lim_st = [x for x in stores if "_calculate_limit" in norm(x[2])]
-    fin_st = [x for x in stores if isinstance(x[2], ast.Call) and dotted(x[2].func) == "func"]
-    if tolerant is not None:
-        ctx.violation("R1.4", "_calculate_impedances:limit-set", BASE, tolerant[0], f"the limit/finite split uses the tolerance test {tolerant[1]}: small positive frequencies would be evaluated as the DC limit")
-    elif len(lim_st) != 1 or len(fin_st) != 1:
-        raise AnalysisError(f"_calculate_impedances: expected one limit store and one finite store into Z (found {len(lim_st)}, {len(fin_st)})")
-    elif fin_st[0][1] is None and norm(fin_st[0][2].args[0]) != f"f[{fin_st[0][3]}]":
-        pass  # reported by the index-pairing rule below
-    elif lim_st[0][1] is None or fin_st[0][1] is None:
-        raise AnalysisError(f"_calculate_impedances: index sets {lim_st[0][3]} / {fin_st[0][3]} are built with an idiom the index-set interpreter does not know")
-    elif lim_st[0][1] == frozenset({"zero", "inf"}) and fin_st[0][1] == frozenset({"finite"}):
-        ctx.ok()
-    else:
-        ctx.violation("R1.4", "_calculate_impedances:limit-set", BASE, lim_st[0][0],
-                      f"the limit path takes the points {sorted(lim_st[0][1])} and the finite path {sorted(fin_st[0][1])}; expected ['inf', 'zero'] and ['finite'] (every point exactly once)")
-    ctx.instance("R1.4", "Z[indices] = func(f[indices])")
-    if len(fin_st) == 1 and norm(fin_st[0][2].args[0]) == f"f[{fin_st[0][3]}]":
-        ctx.ok()
-    else:
-        ctx.violation("R1.4", "_calculate_impedances:index-pairing", BASE, ci.node, "finite-frequency results are not stored at the indices they were evaluated for")
-    ctx.instance("R1.4", "limit results stored at the limit indices, computed from f at those indices")
-    if len(lim_st) == 1 and f"f[{lim_st[0][3]}]" in norm(lim_st[0][2]) and "_calculate_limit(obj, _)" in norm(lim_st[0][2]):
-        ctx.ok()
-    else:
-        ctx.violation("R1.4", "_calculate_impedances:limit-pairing", BASE, ci.node, "limit values are not computed from f[limit_indices] and stored at limit_indices")
-    ctx.instance("R1.4", "inf/NaN refusals dominate the return")
-    rets = [n for n in body if isinstance(n, ast.Return)]
-    if len(rets) != 1:
-        raise AnalysisError("_calculate_impedances: expected exactly one top-level return")
-    conds = [norm(c) for c, pol in flatten_conditions(dominating_conditions(rets[0])) if not pol]
-    if any("isinf(Z)" in c for c in conds) and any("isnan(Z)" in c for c in conds):
-        ctx.ok()
-    else:
-        ctx.violation("R1.4", "_calculate_impedances:refusals", BASE, rets[0], "the return is not dominated by the infinite/NaN impedance refusals")
+        def scan(stmts):
+            nonlocal tolerant
+            for st_ in stmts:
+                if isinstance(st_, (ast.Assign, ast.AnnAssign)) and st_.value is not None:
+                    tg_ = st_.targets[0] if isinstance(st_, ast.Assign) else st_.target
+                    if isinstance(tg_, ast.Name):
+                        try:
+                            v_ = pset(st_.value, ienv)
+                        except Tolerant as t_:
+                            tolerant = (st_, str(t_))
+                            v_ = None
+                        if v_ is not None:
+                            ienv[tg_.id] = v_
+                        else:
+                            ienv.pop(tg_.id, None)
+                    elif isinstance(tg_, ast.Subscript) and norm(tg_.value) == "Z":
+                        try:
+                            stores.append((st_, pset(tg_.slice, ienv), st_.value, norm(tg_.slice)))
+                        except Tolerant as t_:
+                            tolerant = (st_, str(t_))
+                elif isinstance(st_, ast.If) and (".size > 0" in norm(st_.test) or norm(st_.test).startswith("len(")):
+                    scan(st_.body)  # acting on an empty index set is the identity: the guard does not change the sets
+        scan(body)
+        ctx.instance("R1.4", "limit path takes exactly the points with f == 0 or f infinite; the finite path takes exactly the others")
+        lim_st = [x for x in stores if "_calculate_limit" in norm(x[2])]
+        fin_st = [x for x in stores if isinstance(x[2], ast.Call) and dotted(x[2].func) == "func"]
+        if tolerant is not None:
+            ctx.violation("R1.4", "_calculate_impedances:limit-set", BASE, tolerant[0], f"the limit/finite split uses the tolerance test {tolerant[1]}: small positive frequencies would be evaluated as the DC limit")
+        elif len(lim_st) != 1 or len(fin_st) != 1:
+            raise AnalysisError(f"_calculate_impedances: expected one limit store and one finite store into Z (found {len(lim_st)}, {len(fin_st)})")
+        elif fin_st[0][1] is None and norm(fin_st[0][2].args[0]) != f"f[{fin_st[0][3]}]":
+            pass  # reported by the index-pairing rule below
+        elif lim_st[0][1] is None or fin_st[0][1] is None:
+            raise AnalysisError(f"_calculate_impedances: index sets {lim_st[0][3]} / {fin_st[0][3]} are built with an idiom the index-set interpreter does not know")
+        elif lim_st[0][1] == frozenset({"zero", "inf"}) and fin_st[0][1] == frozenset({"finite"}):
+            ctx.ok()
+        else:
+            ctx.violation("R1.4", "_calculate_impedances:limit-set", BASE, lim_st[0][0],
+                          f"the limit path takes the points {sorted(lim_st[0][1])} and the finite path {sorted(fin_st[0][1])}; expected ['inf', 'zero'] and ['finite'] (every point exactly once)")
+        ctx.instance("R1.4", "Z[indices] = func(f[indices])")
+        if len(fin_st) == 1 and norm(fin_st[0][2].args[0]) == f"f[{fin_st[0][3]}]":
+            ctx.ok()
+        else:
+            ctx.violation("R1.4", "_calculate_impedances:index-pairing", BASE, ci.node, "finite-frequency results are not stored at the indices they were evaluated for")
+        ctx.instance("R1.4", "limit results stored at the limit indices, computed from f at those indices")
+        if len(lim_st) == 1 and f"f[{lim_st[0][3]}]" in norm(lim_st[0][2]) and "_calculate_limit(obj, _)" in norm(lim_st[0][2]):
+            ctx.ok()
+        else:
+            ctx.violation("R1.4", "_calculate_impedances:limit-pairing", BASE, ci.node, "limit values are not computed from f[limit_indices] and stored at limit_indices")
+        ctx.instance("R1.4", "inf/NaN refusals dominate the return")
+        rets = [n for n in body if isinstance(n, ast.Return)]
+        if len(rets) != 1:
+            raise AnalysisError("_calculate_impedances: expected exactly one top-level return")
+        conds = [norm(c) for c, pol in flatten_conditions(dominating_conditions(rets[0])) if not pol]
+        if any("isinf(Z)" in c for c in conds) and any("isnan(Z)" in c for c in conds):
+            ctx.ok()
+        else:
+            ctx.violation("R1.4", "_calculate_impedances:refusals", BASE, rets[0], "the return is not dominated by the infinite/NaN impedance refusals")
 
     # ---------------- R1.5 ---------------------------------------------------------
     pc = model.fi(PKG, "parse_cdc")
